@@ -119,7 +119,33 @@ def coq_audit_sources():
     return bad
 
 
+PROP_FILES = {
+    "C02": ["C02", "C02u"], "C07": ["C07", "C07u"], "C09": ["C09", "C09u"], "C16": ["C16", "C16b"],
+    "C18": ["C18", "C18b"], "C20": ["C20", "C20b"],
+}
+
+
 def coq_property(prop):
+    """(re)compile the props file(s) of a property; merge their theorems and Print Assumptions"""
+    res = {"obligations": [], "discharged": [], "axioms": {}, "ok": True, "log_tail": "", "failed_at": None}
+    for f in PROP_FILES.get(prop, [prop]):
+        if not os.path.exists(os.path.join(COQ, "props", f + ".v")):
+            continue
+        r = coq_property_file(f)
+        res["obligations"] += r["obligations"]
+        res["discharged"] += r["discharged"]
+        res["axioms"].update(r["axioms"])
+        res["ok"] = res["ok"] and r["ok"]
+        if not r["ok"]:
+            res["log_tail"] += r["log_tail"]
+            res["failed_at"] = res["failed_at"] or r["failed_at"]
+    if not res["obligations"]:
+        res["ok"] = False
+        res["log_tail"] = "no props file for %s" % prop
+    return res
+
+
+def coq_property_file(prop):
     """(re)compile props/<prop>.v, parse its theorems, pins and Print Assumptions output"""
     res = {"obligations": [], "discharged": [], "axioms": {}, "ok": False, "log_tail": "", "failed_at": None}
     pf = os.path.join(COQ, "props", prop + ".v")
@@ -138,7 +164,6 @@ def coq_property(prop):
     ok, out = coq_make("props/%s.vo" % prop)
     res["log_tail"] = out[-3000:]
     # Print Assumptions blocks appear in order of the theorems that were reached
-    # output looks like:  "Closed under the global context"  or  "Axioms:\nfoo : ..."
     blocks = re.findall(r"(Closed under the global context|Axioms:\n(?:.+\n?)+?(?=\n\S|\Z))", out)
     printed = re.findall(r"^\s*Print Assumptions\s+(\w+)", plain, flags=re.M)
     for name, blk in zip(printed, blocks):
@@ -157,7 +182,6 @@ def coq_property(prop):
         if m:
             res["failed_at"] = "%s:%s" % (m.group(1), m.group(2))
             if m.group(1) == "props/%s.v" % prop:
-                # theorems before the failing line were accepted
                 line = int(m.group(2))
                 upto = "\n".join(src.split("\n")[: line - 1])
                 done = re.findall(r"^\s*Theorem\s+(\w+)", strip_coq_comments(upto), flags=re.M)
